@@ -5,14 +5,16 @@ Read from the working tree on every run (AST node types are whitelisted, never s
   pyroll/core/grooves/generic_elongation.py
       * the junction chain of `__init__` (through driver/translate/groove.py: `extract_chain`)
       * every `_*_contour_line` method as an `Expr` over `z` and the chain (incl. `np.ones_like(z) * e`, `np.zeros_like(z)`)
-      * `local_depth`: `z = np.abs(z)` and the `np.piecewise` condition / function table
+      * `local_depth`: what the statements `z = <E>` do to the argument before `np.piecewise` (`np.abs`, `np.asarray(.., dtype=float)`
+        and friends, in execution order -> `ArgOp` list) and the `np.piecewise` condition / function table
       * `_enumerate_contour_points`: the sequence of `yield a, b` / `if not np.isclose(..): yield ..` /
         `if not np.isclose(..): for z in np.linspace(a, b, Config.GROOVE_RADIUS_POINT_COUNT, endpoint=False): yield z, f(z)`
       * the assembly of `_contour_points` (shape check)
   pyroll/core/roll/hookimpls.py
       * `contour_points`, `min_radius`, `max_radius` (pyexpr), `surface_z` (column), `surface_y` (element formula with the
         broadcast axes), `surface_x` (guarded padded angle, `linspace` list, mirrored concatenation, outer formula)
-  pyroll/core/roll/roll.py            `surface_interpolation`: axes and transposition handed to `interpn` (shape check);
+  pyroll/core/roll/roll.py            `surface_interpolation`: what happens to the positions `x`, `z` before `interpn` (`ArgOp`
+                                      lists), axes and transposition handed to `interpn`, layout of the result (shape check);
                                       what the object keeps between two calls (`extract_roll_state`: private attributes of
                                       `__init__`, what `reevaluate_cache` empties and when, pure / remembering methods,
                                       hook functions reading them, nothing at module level) -> `RollTables`
@@ -162,16 +164,67 @@ def _cond(n):
     raise Gap(f"piecewise condition `{ast.unparse(n)}`")
 
 
+def _is_float_dtype(n):
+    """`float`, `np.float64`, `np.double`, `"float64"`, `"float"`, `"f8"`, `"d"`: numpy's float64"""
+    if isinstance(n, ast.Name):
+        return n.id == "float"
+    if isinstance(n, ast.Constant):
+        return n.value in ("float64", "float", "f8", "d", "double")
+    return pyexpr.attr_path(n) in (["np", "float64"], ["numpy", "float64"], ["np", "double"], ["numpy", "double"])
+
+
+def _arg_ops(n, var="z"):
+    """What an expression does to the argument `z` of `local_depth` before it reaches `np.piecewise`, innermost first:
+         z                                              []
+         np.abs(E) / np.absolute(E) / abs(E)            ops(E) + ["abs"]        (keeps the dtype)
+         np.asarray(E) / np.asanyarray(E)               ops(E) + ["asArray"]    (keeps the dtype)
+         np.asarray(E, dtype=<float64>) (also positional, also np.asanyarray / np.array / np.ascontiguousarray),
+         np.float64(E), E.astype(<float64>)             ops(E) + ["asFloat"]    (every numeric kind becomes float64)
+       anything else (an `out=` argument, another dtype, arithmetic) -> Gap"""
+    if isinstance(n, ast.Name) and n.id == var:
+        return []
+    if isinstance(n, ast.Call):
+        kws = {k.arg: k.value for k in n.keywords}
+        if isinstance(n.func, ast.Name) and n.func.id == "abs" and len(n.args) == 1 and not kws:
+            return _arg_ops(n.args[0], var) + ["abs"]
+        path = pyexpr.attr_path(n.func)
+        if path is not None and len(path) == 2 and path[0] in ("np", "numpy"):
+            f = path[1]
+            if f in ("abs", "absolute") and len(n.args) == 1 and not kws:
+                return _arg_ops(n.args[0], var) + ["abs"]
+            if f in ("float64", "double") and len(n.args) == 1 and not kws:
+                return _arg_ops(n.args[0], var) + ["asFloat"]
+            if f in ("asarray", "asanyarray", "array", "ascontiguousarray") and 1 <= len(n.args) <= 2 \
+                    and set(kws) <= ({"dtype"} if len(n.args) == 1 else set()):
+                dt = n.args[1] if len(n.args) == 2 else kws.get("dtype")
+                if dt is None and f in ("asarray", "asanyarray"):
+                    return _arg_ops(n.args[0], var) + ["asArray"]
+                if dt is not None and _is_float_dtype(dt):
+                    return _arg_ops(n.args[0], var) + ["asFloat"]
+        if isinstance(n.func, ast.Attribute) and n.func.attr == "astype" and len(n.args) == 1 and not kws \
+                and _is_float_dtype(n.args[0]):
+            return _arg_ops(n.func.value, var) + ["asFloat"]
+    raise Gap(f"local_depth: what `{ast.unparse(n)[:80]}` does to the argument is outside the subset")
+
+
 def extract_local_depth(cls):
-    """-> (use_abs, [(lo|None, hi, method)], default method)"""
+    """-> (arg_ops, [(lo|None, hi, method)], default method); `arg_ops` = what the statements `z = <E>` before the `return` do
+    to the argument, in execution order (see `_arg_ops`): `["abs"]` for `z = np.abs(z)`, `["asFloat", "abs"]` for
+    `z = np.abs(np.asarray(z, dtype=float))` or the same in two statements"""
     fn = _method(cls, "local_depth")
+    if [a.arg for a in fn.args.args] != ["self", "z"] or fn.args.vararg or fn.args.kwarg or fn.args.kwonlyargs or fn.decorator_list:
+        raise Gap("local_depth is not a plain method of `z`")
     body = _body(fn)
-    use_abs = False
-    if len(body) == 2 and _same(body[0], "z = np.abs(z)"):
-        use_abs = True
+    arg_ops = []
+    while len(body) > 1:
+        st = body[0]
+        if not (isinstance(st, ast.Assign) and len(st.targets) == 1 and isinstance(st.targets[0], ast.Name)
+                and st.targets[0].id == "z"):
+            raise Gap(f"local_depth: statement `{ast.unparse(st)[:80]}` is not `z = <conversion of z>`")
+        arg_ops += _arg_ops(st.value)
         body = body[1:]
     if len(body) != 1 or not isinstance(body[0], ast.Return) or not _np_call(body[0].value, "piecewise"):
-        raise Gap("local_depth is not `[z = np.abs(z);] return np.piecewise(z, [...], [...])`")
+        raise Gap("local_depth is not `[z = <conversion of z>;]* return np.piecewise(z, [...], [...])`")
     call = body[0].value
     if len(call.args) != 3 or call.keywords or not (isinstance(call.args[0], ast.Name) and call.args[0].id == "z") \
             or not isinstance(call.args[1], ast.List) or not isinstance(call.args[2], ast.List):
@@ -185,7 +238,7 @@ def extract_local_depth(cls):
         funcs.append(a)
     if len(funcs) != len(conds) + 1:
         raise Gap("np.piecewise needs one function per condition plus the default")
-    return use_abs, [(lo, hi, f) for (lo, hi), f in zip(conds, funcs)], funcs[-1]
+    return arg_ops, [(lo, hi, f) for (lo, hi), f in zip(conds, funcs)], funcs[-1]
 
 
 def _isclose_guard(test):
@@ -422,8 +475,8 @@ def extract_surface_x(tree):
 
 
 INTERP = [
-    "x = np.asarray(x)",
-    "z = np.asarray(z)",
+    None,       # `x = <conversion of x>`   (read into `interp_x_ops`, see `_arg_ops`)
+    None,       # `z = <conversion of z>`   (read into `interp_z_ops`)
     "g = np.meshgrid(x, z)",
     "xz = np.column_stack([g[0].flat, g[1].flat])",
     "y = interpn((self.surface_x, self.surface_z), self.surface_y.T, xz)",
@@ -432,17 +485,34 @@ INTERP = [
 
 
 def check_interpolation(tree):
+    """-> (what happens to the position `x`, what happens to the position `z`) before they reach `np.meshgrid` / `interpn`
+    (`ArgOp` names, execution order); the rest of the body is compared statement by statement: `np.meshgrid(x, z)` + the
+    column stack = one query point per (z, x) pair, z-major; `interpn` on the axes `(surface_x, surface_z)` with `surface_y.T`;
+    the result reshaped to one ROW per z, one column per x"""
     fn = _method(_cls(tree, "Roll"), "surface_interpolation")
+    if [a.arg for a in fn.args.args] != ["self", "x", "z"] or fn.args.vararg or fn.args.kwarg or fn.args.kwonlyargs \
+            or fn.decorator_list:
+        raise Gap("surface_interpolation is not a plain method of `x`, `z`")
     body = _body(fn)
     if len(body) != len(INTERP):
         raise Gap("surface_interpolation: statement count")
-    for st, src in zip(body, INTERP):
+    ops = {}
+    for st, var in zip(body[:2], ("x", "z")):
+        if not (isinstance(st, ast.Assign) and len(st.targets) == 1 and isinstance(st.targets[0], ast.Name)
+                and st.targets[0].id == var):
+            raise Gap(f"surface_interpolation: expected `{var} = <conversion of {var}>`, found `{ast.unparse(st)[:80]}`")
+        try:
+            ops[var] = _arg_ops(st.value, var)
+        except Gap as ex:
+            raise Gap(f"surface_interpolation: {ex}")
+    for st, src in zip(body[2:], INTERP[2:]):
         if not _same(st, src):
             raise Gap(f"surface_interpolation: expected `{src}`, found `{ast.unparse(st)[:80]}`")
     imp = [n for n in tree.body if isinstance(n, ast.ImportFrom) and n.module == "scipy.interpolate"
            and any(a.name == "interpn" and a.asname is None for a in n.names)]
     if not imp:
         raise Gap("interpn is not scipy.interpolate.interpn")
+    return ops["x"], ops["z"]
 
 
 # ----------------------------------------------------------------------------------------------------------------
@@ -911,7 +981,7 @@ def extract_spline(tree):
 PLACEHOLDER = '(.var "<untranslatable>")'
 
 
-def emit(ctx, reset_first_required=False):
+def emit(ctx, reset_first_required=False, depth_float_required=False):
     """writes Gen/C10.lean; returns a dict with everything extracted (used by the harness for the correspondence).
     `reset_first_required` (driver/props/c10.py `RESET_FIRST_REQUIRED`): `Roll.reevaluate_cache` must empty what the roll
     remembers BEFORE the hook values are re-evaluated - any other statement order is a gap then."""
@@ -967,12 +1037,20 @@ def emit(ctx, reset_first_required=False):
         return PLACEHOLDER
 
     try:
-        use_abs, pieces, dflt = extract_local_depth(gcls)
+        arg_ops, pieces, dflt = extract_local_depth(gcls)
     except Gap as ex:
         gap(f"{GE}: local_depth: {ex}")
-        use_abs, pieces, dflt = False, [], None
+        arg_ops, pieces, dflt = [], [], None
+    use_abs = "abs" in arg_ops
+    if depth_float_required and "asFloat" not in arg_ops:
+        gap(f"{GE}: local_depth hands its argument to np.piecewise without converting it to float64 (np.piecewise takes the "
+            f"dtype of its result from that argument; conversions read: {arg_ops}; required: DEPTH_FLOAT_REQUIRED)")
     info["local_depth"] = (use_abs, pieces, dflt)
-    L.append("/-! `local_depth`: the `np.piecewise` table -/")
+    info["depth_arg_ops"] = arg_ops
+    L.append("/-! `local_depth`: what happens to the argument before `np.piecewise` (in execution order), the `np.piecewise` table -/")
+    L.append("def depth_arg_ops : List ArgOp := [" + ", ".join("." + o for o in arg_ops) + "]")
+    L.append("/-- driver/props/c10.py `DEPTH_FLOAT_REQUIRED`: must `local_depth` convert its argument to float64? -/")
+    L.append(f"def depth_float_required : Bool := {'true' if depth_float_required else 'false'}")
     L.append(f"def depth_abs : Bool := {'true' if use_abs else 'false'}")
     L.append("def pieces : List Piece := [" + ",\n    ".join(
         "⟨%s, %s, %s⟩" % ("none" if lo is None else f"some {ref(lo)}", ref(hi), fref(f)) for lo, hi, f in pieces) + "]")
@@ -1052,13 +1130,19 @@ def emit(ctx, reset_first_required=False):
         L.append(f"def surface_x_outer : Expr := {PLACEHOLDER}")
         L.append('def surface_x_count_name : String := ""')
     try:
-        check_interpolation(_parse(RR))
+        ox, oz = check_interpolation(_parse(RR))
         L.append("/-- `interpn((surface_x, surface_z), surface_y.T, ...)`: first axis = grid abscissa -/")
         L.append("def interp_grid_transposed : Bool := true")
         info["interp_ok"] = True
     except Gap as ex:
         gap(f"{RR}: {ex}")
+        ox, oz = [], []
         L.append("def interp_grid_transposed : Bool := false")
+    info["interp_arg_ops"] = (ox, oz)
+    L.append("/-- what `surface_interpolation(x, z)` does to the two positions before `np.meshgrid` / `interpn` (execution order); "
+             "the result has one row per `z`, one column per `x` (`y.reshape(z.size, x.size)` of the z-major query list) -/")
+    L.append("def interp_x_ops : List ArgOp := [" + ", ".join("." + o for o in ox) + "]")
+    L.append("def interp_z_ops : List ArgOp := [" + ", ".join("." + o for o in oz) + "]")
     L.append("/-- what a `Roll` keeps on the object between two calls besides the hook cache: private attributes of `__init__`, "
              "the ones `reevaluate_cache` empties before resp. after the hook values are re-evaluated (`super().reevaluate_cache()`), "
              "which methods remember their result where, which hook functions read such a method -/")
